@@ -104,6 +104,8 @@ pub fn ext_resolve(func: &str, s: &str, answers: &Answers) -> Result<(String, us
 }
 
 fn ext_answer(func: &str, s: &str) -> Result<(String, usize), &'static str> {
+    // under the schedule explorer a user function is a scheduling point: other parses may run "inside" it
+    crate::real::do_yield();
     log(func, s.to_string());
     ENV.with(|e| ext_resolve(func, s, &e.borrow().answers))
 }
